@@ -22,7 +22,8 @@ thread_local! {
 /// The CONNACK properties carrying Maximum Packet Size `m`, among other properties and in different
 /// positions according to the current case's `dress`: 0 alone; 1 behind / 2 in front of an Assigned
 /// Client Identifier echoing the client's own; 3 in the middle of Receive Maximum, Topic Alias Maximum,
-/// a user property and a reason string; 4 the same reversed; 5 behind a different assigned identifier.
+/// a user property and a reason string; 4 the same reversed; 5 behind a different assigned identifier;
+/// 6..9 behind 16, 17, 30, 60 user properties.
 fn maxprop(m: Option<u32>) -> Vec<Prop> {
     let Some(m) = m else { return vec![] };
     let x = Prop { id: 0x27, val: PVal::U32(m) };
@@ -38,6 +39,13 @@ fn maxprop(m: Option<u32>) -> Vec<Prop> {
             Prop { id: 0x1F, val: PVal::Str(b"ok".to_vec()) },
         ],
         5 => vec![Prop { id: 0x12, val: PVal::Str(b"renamed".to_vec()) }, x],
+        // behind 16, 17, 30 and 60 user properties (a property that may repeat without limit)
+        d @ 6..=9 => {
+            let n = [16usize, 17, 30, 60][d as usize - 6];
+            let mut v: Vec<Prop> = (0..n).map(|i| Prop { id: 0x26, val: PVal::Pair(b"k".to_vec(), vec![b'0' + (i % 10) as u8]) }).collect();
+            v.push(x);
+            v
+        }
         _ => vec![x],
     };
     if DRESS.with(|d| d.get()) == 4 {
@@ -71,7 +79,7 @@ fn site_name(s: u8) -> &'static str {
 /// session present and no limit, and poll once. Returns (result, bytes written by the request,
 /// quiescent after the request, alive after the request, identifier-bearing packets replayed later).
 fn do_site(c: &SiteCase, m: Option<u32>) -> Option<(Result<(), Res>, Vec<u8>, bool, bool, usize)> {
-    let spec = Spec::plain(64, (2 * c.m as usize + 96).max(512));
+    let spec = Spec::plain(if c.dress >= 6 { 1024 } else { 64 }, (2 * c.m as usize + 96).max(512));
     let out = with_session(&spec, |bench, s| {
         let (r, written, quiescent, alive) = {
             let Conn::Ok(mut conn, id) = connect(bench, s, &connack(false, maxprop(m))) else { return None };
@@ -207,7 +215,7 @@ fn site_cases(tier: Tier) -> Vec<SiteCase> {
                 v.push(SiteCase { m, site, n, dress: 0 });
                 // the limit at other positions of the CONNACK property block: around the boundary only
                 if (n as i64 - m as i64).abs() <= 8 && (m % 7 == 3 || tier == Tier::Thorough) {
-                    for dress in 1..=5u8 {
+                    for dress in 1..=9u8 {
                         v.push(SiteCase { m, site, n, dress });
                     }
                 }
